@@ -20,14 +20,16 @@
 (* Direction A turns every emitted case into >= 5 seeded instantiations     *)
 (* against the real ExtKeychain / proof / build / reward code.              *)
 (*                                                                         *)
-(* Three sub-models share this module; constant Part selects the one that   *)
+(* Four sub-models share this module; constant Part selects the one that    *)
 (* Next explores: "rewind" (Create / Craft), "algebra" (Append), "builder"   *)
-(* (Shape).                                                                 *)
+(* (Shape, incl. the two-party exchange), "wallet" (pairs of keychain        *)
+(* constructors: seed bytes of 16/32/64 bytes, mnemonic + passphrase,        *)
+(* master-key masking).                                                      *)
 (***************************************************************************)
 EXTENDS Naturals, Integers, Sequences, FiniteSets, TLC
 
 CONSTANTS
-  Part,        \* "rewind" | "algebra" | "builder"
+  Part,        \* "rewind" | "algebra" | "builder" | "wallet"
   Seeds,       \* wallet seeds (strings)
   Comps,       \* path component classes (strings); "c0" is the value 0 (= identifier padding)
   HardComps,   \* the classes >= 2^31 (hardened child numbers)
@@ -35,7 +37,8 @@ CONSTANTS
   MaxDepth,    \* deepest path (4 = ExtKeychainPath)
   VKMaxDepth,  \* view keys are created for prefixes up to this depth
   MaxOuts,     \* outputs per world
-  Fmts,        \* message formats that Craft may use: subset of {"new","legacy","wallet1","sw2"}
+  Fmts,        \* message formats that Craft may use: subset of
+               \* {"new","legacy","wallet1","sw2","b0","dp5","dp255","dpm1"}
   KeyNames,    \* blinding algebra: names of non-zero keys (derived "d*" and raw "r*")
   MaxTerms,    \* blinding algebra: longest expression
   MaxIO,       \* builder: most inputs / outputs
@@ -55,8 +58,12 @@ Min(a, b) == IF a < b THEN a ELSE b
 
 Paths == UNION {[1..d -> Comps] : d \in 0..MaxDepth}
 
-\* Identifier: depth byte + four components, unused ones are 0 (ExtKeychainPath::new(d, ..))
-Ident(p) == [depth |-> Len(p), c |-> [i \in 1..4 |-> IF i <= Len(p) THEN p[i] ELSE ZeroComp]]
+\* Identifier: depth byte + four components.  The canonical identifier (ExtKeychainPath::new(d, ..)
+\* with the unused components 0) is Ident(p); IdentP(p, pad) carries the value pad in the unused
+\* components (an Identifier is 17 free bytes: nothing forces the padding to be zero).
+JunkComp == "cj"                    \* a non-zero value that is not in Comps
+IdentP(p, pad) == [depth |-> Len(p), c |-> [i \in 1..4 |-> IF i <= Len(p) THEN p[i] ELSE pad]]
+Ident(p) == IdentP(p, ZeroComp)
 \* derive_key walks path[0..depth) only
 EffPath(id) == [i \in 1..Min(id.depth, 4) |-> id.c[i]]
 XPrv(seed, ep) == <<"xprv", seed, ep>>
@@ -78,19 +85,36 @@ Msg(fmt, id, mode) ==
     [] fmt = "legacy"  -> [b0 |-> 0, b1 |-> 0, sw |-> 0, dp |-> 0, c |-> id.c]
     [] fmt = "wallet1" -> [b0 |-> 0, b1 |-> 1, sw |-> ModeByte(mode), dp |-> id.depth, c |-> id.c]
     [] fmt = "sw2"     -> [b0 |-> 0, b1 |-> 0, sw |-> 2, dp |-> id.depth, c |-> id.c]
+    \* reserved byte 0 set
+    [] fmt = "b0"      -> [b0 |-> 1, b1 |-> 0, sw |-> ModeByte(mode), dp |-> id.depth, c |-> id.c]
+    \* depth byte above 4 (check_output clamps it to 4), and depth byte one below the real depth
+    [] fmt = "dp5"     -> [b0 |-> 0, b1 |-> 0, sw |-> ModeByte(mode), dp |-> 5, c |-> id.c]
+    [] fmt = "dp255"   -> [b0 |-> 0, b1 |-> 0, sw |-> ModeByte(mode), dp |-> 255, c |-> id.c]
+    [] fmt = "dpm1"    -> [b0 |-> 0, b1 |-> 0, sw |-> ModeByte(mode),
+                           dp |-> IF id.depth = 0 THEN 0 ELSE id.depth - 1, c |-> id.c]
 
 Args == [seed : Seeds, path : Paths, amt : Amts, mode : Modes, fam : Fams, fmt : Fmts]
 Honest(a) == a.fam = a.fmt
 
-\* The output (commitment + proof) that creation yields for arguments a.
-MkOut(a) ==
-  LET id == Ident(a.path)
+\* extra_data of proof::create / verify / rewind: absent, or one of two different byte strings
+Extras == {"none", "e1", "e2"}
+
+\* The output (commitment + proof) that creation yields for arguments a, an identifier padded with
+\* pad and extra data x.
+MkOutPX(a, pad, x) ==
+  LET id == IdentP(a.path, pad)
       cm == CommitN(a.seed, id, a.amt, a.mode) IN
   [args |-> a, commit |-> cm,
-   proof |-> [cm |-> cm, nonce |-> Nonce(a.fam, a.seed, cm), val |-> a.amt, msg |-> Msg(a.fmt, id, a.mode)]]
+   proof |-> [cm |-> cm, nonce |-> Nonce(a.fam, a.seed, cm), val |-> a.amt, msg |-> Msg(a.fmt, id, a.mode),
+              extra |-> x]]
+MkOutP(a, pad) == MkOutPX(a, pad, "none")
+MkOutX(a, x) == MkOutPX(a, ZeroComp, x)
+MkOut(a) == MkOutPX(a, ZeroComp, "none")
 
-\* bulletproof verification: the proof is bound to the commitment it was made for
-Verifies(commit, proof) == proof.cm = commit
+\* bulletproof verification: the proof is bound to the commitment it was made for and to the extra
+\* data it was made with
+VerifiesX(commit, proof, y) == proof.cm = commit /\ proof.extra = y
+Verifies(commit, proof) == VerifiesX(commit, proof, "none")
 
 -----------------------------------------------------------------------------
 (* ---------------- rewind, in the shape of proof.rs ---------------------- *)
@@ -132,12 +156,15 @@ CheckView(vk, commit, amt, m) ==
 
 FamOf(kind) == IF kind = "legacy" THEN "legacy" ELSE "new"   \* the view key shares rewind_hash
 
-\* proof::rewind(secp, builder, commit, None, proof)
-Rewind(rw, commit, proof) ==
-  IF Nonce(FamOf(rw.kind), rw.seed, commit) # proof.nonce THEN NoneR
+\* proof::rewind(secp, builder, commit, extra_data = y, proof): secp.rewind_bullet_proof fails
+\* (=> Ok(None)) unless the nonce and the extra data are the ones of creation
+RewindX(rw, commit, y, proof) ==
+  IF Nonce(FamOf(rw.kind), rw.seed, commit) # proof.nonce \/ proof.extra # y THEN NoneR
   ELSE CASE rw.kind = "new"    -> CheckNew(rw.seed, commit, proof.val, proof.msg)
          [] rw.kind = "legacy" -> CheckLegacy(rw.seed, commit, proof.val, proof.msg)
          [] rw.kind = "view"   -> CheckView(rw, commit, proof.val, proof.msg)
+\* proof::rewind(secp, builder, commit, None, proof)
+Rewind(rw, commit, proof) == RewindX(rw, commit, "none", proof)
 
 KeychainRewinders == [kind : Fams, seed : Seeds, prefix : {<<>>}]
 VKPrefixes == UNION {[1..d -> Comps] : d \in 0..VKMaxDepth}
@@ -184,12 +211,75 @@ OtherSeedNothing ==
   \A o \in outs : \A rw \in Rewinders :
     rw.seed # o.args.seed => Rewind(rw, o.commit, o.proof) = NoneR
 
-\* each generation rewinds only its own message format
+\* each generation rewinds only its own message layout: whenever a keychain rewinder answers, the
+\* message is the one its own generation writes for these arguments, up to the clamp of the depth
+\* byte (for depth 0 without switch commitment both layouts are 20 zero bytes)
+Canon(m) == [m EXCEPT !.dp = Min(m.dp, 4)]
 OwnFormatOnly ==
   \A o \in outs : \A rw \in KeychainRewinders :
     Rewind(rw, o.commit, o.proof).t = "some" =>
-      \/ o.args.fmt = rw.kind
-      \/ (Len(o.args.path) = 0 /\ o.args.mode = "None" /\ o.args.fmt \in Fams)  \* both layouts are 20 zero bytes
+      LET id == Ident(o.args.path) IN
+      Canon(Msg(o.args.fmt, id, o.args.mode)) = Canon(Msg(rw.kind, id, o.args.mode))
+
+\* extra data: a proof verifies / rewinds only with the extra data it was created with; with the
+\* right extra data the answer is the one of the plain matrix
+ExtraDataBinds ==
+  \A o \in outs : Honest(o.args) =>
+    \A x, y \in Extras :
+      LET ox == MkOutX(o.args, x) IN
+      /\ ox.commit = o.commit
+      /\ VerifiesX(ox.commit, ox.proof, y) <=> (x = y)
+      /\ \A rw \in KeychainRewinders :
+           RewindX(rw, ox.commit, y, ox.proof) = IF x = y THEN Rewind(rw, o.commit, o.proof) ELSE NoneR
+
+\* identifier padding: the bytes behind the depth do not influence key or commitment; the proof
+\* message carries them and rewinding returns the creation identifier byte for byte (every other
+\* answer is unchanged)
+PadMap(r, a, pad) == IF r.t = "some" /\ r.id = Ident(a.path) THEN [r EXCEPT !.id = IdentP(a.path, pad)] ELSE r
+PadEquivalent(o, pad) ==
+  LET oj == MkOutP(o.args, pad) IN
+  /\ oj.commit = o.commit
+  /\ \A rw \in Rewinders : Rewind(rw, oj.commit, oj.proof) = PadMap(Rewind(rw, o.commit, o.proof), o.args, pad)
+\* (for messages that no builder writes the padding can decide between "nothing" and "unsupported" of a
+\* view key - a depth byte above the real depth makes the padding part of the decoded path - so
+\* equivalence is claimed for honest outputs; for all outputs the answer is nothing or the creation triple)
+PaddingIgnored ==
+  \A o \in outs :
+    /\ Honest(o.args) => PadEquivalent(o, JunkComp)
+    /\ MkOutP(o.args, JunkComp).commit = o.commit
+    /\ \A rw \in Rewinders :
+         Rewind(rw, o.commit, MkOutP(o.args, JunkComp).proof)
+           \in {NoneR, UnsupR, SomeR(o.args.amt, IdentP(o.args.path, JunkComp), o.args.mode)}
+
+\* Keychain::sign(msg, amount, id, switch) signs with derive_key(amount, id, switch): the signature
+\* verifies under the public key commit - amount*H, i.e. iff the commitment's blinding key is the
+\* signing key; it is bound to the message
+SigN(seed, id, amt, mode, msg) == [msg |-> msg, key |-> Blind(seed, id, amt, mode)]
+SigVerifies(sig, msg, commit) == sig.msg = msg /\ commit = <<"commit", commit[2], sig.key>>
+SigOf(a, msg) == SigN(a.seed, Ident(a.path), a.amt, a.mode, msg)
+\* the key of a no-switch output does not depend on the amount
+SameKey(a, b) == a.seed = b.seed /\ a.path = b.path /\ a.mode = b.mode /\ (a.mode = "None" \/ a.amt = b.amt)
+
+\* The five rewind-matrix invariants above evaluated over one table of answers per output (the same
+\* conjuncts, literally; TLC evaluates Rewind once per rewinder instead of once per invariant).
+RewindMatrixAll ==
+  \A o \in outs :
+    LET T == [rw \in Rewinders |-> Rewind(rw, o.commit, o.proof)] IN
+    /\ Honest(o.args) =>
+         \A rw \in KeychainRewinders :
+           T[rw] = IF rw.seed = o.args.seed /\ rw.kind = o.args.fam /\ InDomain(o.args) THEN Triple(o.args) ELSE NoneR
+    /\ Honest(o.args) =>
+         \A vk \in ViewRewinders :
+           LET r == T[vk] IN
+           IF ViewMatch(vk, o.args)
+             THEN r = (IF o.args.mode = "None" THEN Triple(o.args) ELSE UnsupR)
+             ELSE r \in {NoneR, UnsupR} /\ (r = UnsupR => vk.seed = o.args.seed /\ o.args.mode = "Regular")
+    /\ \A rw \in Rewinders : T[rw] \in {NoneR, UnsupR, Triple(o.args)}
+    /\ \A rw \in Rewinders : rw.seed # o.args.seed => T[rw] = NoneR
+    /\ \A rw \in KeychainRewinders :
+         T[rw].t = "some" =>
+           LET id == Ident(o.args.path) IN
+           Canon(Msg(o.args.fmt, id, o.args.mode)) = Canon(Msg(rw.kind, id, o.args.mode))
 
 ProofsVerify == \A o \in outs : Verifies(o.commit, o.proof)
 
@@ -222,9 +312,15 @@ Siblings(a) ==
 SiblingsOK ==
   \A o \in outs : \A b \in Siblings(o.args) :
     b # o.args =>
-      /\ MkOut(b).commit # o.commit
-      /\ ~Verifies(MkOut(b).commit, o.proof)
-      /\ \A rw \in KeychainRewinders : Rewind(rw, MkOut(b).commit, o.proof) = NoneR
+      LET cb == MkOut(b).commit IN
+      /\ cb # o.commit
+      /\ ~Verifies(cb, o.proof)
+      /\ \A rw \in KeychainRewinders : Rewind(rw, cb, o.proof) = NoneR
+SignOK ==
+  \A o \in outs :
+    /\ SigVerifies(SigOf(o.args, "m1"), "m1", o.commit)
+    /\ ~SigVerifies(SigOf(o.args, "m1"), "m2", o.commit)
+    /\ \A b \in Siblings(o.args) : SigVerifies(SigOf(b, "m1"), "m1", o.commit) <=> SameKey(o.args, b)
 
 -----------------------------------------------------------------------------
 (* ---------------- blinding-factor algebra over key names ---------------- *)
@@ -240,8 +336,15 @@ Count(e, s, n) == Cardinality({i \in DOMAIN e : e[i].s = s /\ e[i].n = n})
 
 \* Keychain::blind_sum(BlindSum): partition into positive / negative lists, secp.blind_sum(pos, neg)
 BlindSumImpl(e) == [n \in KeyNames |-> Count(e, 1, n) - Count(e, -1, n)]
-\* BlindingFactor::add: zero operands are filtered out
-AddImpl(a, b) == VAdd(a, b)
+\* BlindingFactor::add: zero operands are filtered out; nothing left = the zero factor, else
+\* secp.blind_sum of what is left
+AddImpl(a, b) ==
+  LET ks == SelectSeq(<<a, b>>, LAMBDA v : ~IsZero(v)) IN
+  IF ks = <<>> THEN Zero ELSE IF Len(ks) = 1 THEN ks[1] ELSE VAdd(ks[1], ks[2])
+\* secp.blind_sum answers Err(InvalidSecretKey) for a zero total (left free, see the driver's
+\* assumptions); add is defined for two zero operands by its own branch
+AddDefined(a, b) == (IsZero(a) /\ IsZero(b)) \/ ~IsZero(VAdd(a, b))
+SplitDefined(w, p) == ~IsZero(VAdd(w, VNeg(p)))
 \* BlindingFactor::split(self, blind_1) = blind_sum([self], [blind_1])
 SplitImpl(w, p) == VAdd(w, VNeg(p))
 \* definitional value: left-to-right signed sum
@@ -271,6 +374,21 @@ AlgSplitSums ==
     /\ AddImpl(p, SplitImpl(w, p)) = w
     /\ SplitImpl(w, p) = BlindSumImpl(SubSeq(expr, k + 1, Len(expr)))
 AlgCommitHom == CommitSumN(expr) = BlindSumImpl(expr)
+\* zero operands (the tx pool adds a transaction offset to a header offset that is usually zero):
+\* 0 + 0 = 0 and is defined; w + 0 = 0 + w = w; w split 0 = w; (0 split x) + w = w split x
+AlgZeroOperands ==
+  LET w == BlindSumImpl(expr) IN
+  /\ AddDefined(Zero, Zero) /\ AddImpl(Zero, Zero) = Zero
+  /\ AddDefined(w, Zero) /\ AddDefined(Zero, w)
+  /\ AddImpl(w, Zero) = w /\ AddImpl(Zero, w) = w
+  /\ SplitImpl(w, Zero) = w
+  /\ \A x \in KeyNames :
+       /\ SplitDefined(Zero, Unit(x))
+       /\ AddImpl(SplitImpl(Zero, Unit(x)), w) = SplitImpl(w, Unit(x))
+       /\ AddDefined(SplitImpl(Zero, Unit(x)), w) <=> SplitDefined(w, Unit(x))
+\* Keychain::sign_with_blinding(msg, w): verifies under the homomorphic image of w (the commit_sum of
+\* the per-term commitments)
+AlgSignHom == SigVerifies([msg |-> "m1", key |-> BlindSumImpl(expr)], "m1", <<"commit", "a0", CommitSumN(expr)>>)
 
 -----------------------------------------------------------------------------
 (* ---------------- builder clause ----------------------------------------- *)
@@ -286,16 +404,50 @@ UnitSeqs == {s \in UNION {[1..n -> 0..MaxUnit] : n \in 1..MaxIO} : Sorted(s)}
 Shapes == {sh \in [ins : UnitSeqs, outs : UnitSeqs, fee : FeeClasses, scale : ScaleClasses,
                    kern : KernClasses, via : ViaClasses] : SumSeq(sh.ins) = SumSeq(sh.outs)}
 
-BNames(sh) == {<<"in", i>> : i \in DOMAIN sh.ins} \cup {<<"out", j>> : j \in DOMAIN sh.outs} \cup {<<"e", 0>>}
+\* <<"o", 0>> / <<"k", 0>>: exchange only - the offset share party A picks, the extra key party B
+\* adds through build::with_excess
+BNames(sh) == {<<"in", i>> : i \in DOMAIN sh.ins} \cup {<<"out", j>> : j \in DOMAIN sh.outs}
+                \cup {<<"e", 0>>, <<"o", 0>>, <<"k", 0>>}
 BUnit(sh, x) == [n \in BNames(sh) |-> IF n = x THEN 1 ELSE 0]
 \* blind_sum accumulated by the combinators: outputs positive, inputs negative
-BuilderSum(sh) == [n \in BNames(sh) |-> IF n[1] = "e" THEN 0 ELSE IF n[1] = "out" THEN 1 ELSE -1]
+BuilderSum(sh) == [n \in BNames(sh) |-> IF n[1] = "out" THEN 1 ELSE IF n[1] = "in" THEN -1 ELSE 0]
 BSub(a, b) == [n \in DOMAIN a |-> a[n] - b[n]]
 BAdd(a, b) == [n \in DOMAIN a |-> a[n] + b[n]]
+BZero(sh) == [n \in BNames(sh) |-> 0]
+
+\* via = "exchange": the interactive two-party build.  Party A (sender) owns the first input (it
+\* pays the fee) and everything party B does not own; party B (receiver) owns the last output
+\* and, if there are several inputs, the last input.
+\*   A: partial_transaction(empty, A's elements) -> blind_A; picks offset o; signs with blind_A - o
+\*   B: partial_transaction over A's transaction (build::initial_tx or passed directly) with
+\*      with_excess(k) and B's elements -> blind_B + k; signs with it; offset of the tx = o - k
+\*   both: secnonce, calculate_partial_sig over the nonce / key sums, verify_partial_sig,
+\*         add_signatures, verify_completed_sig; kernel excess = sum of the two public keys
+PartyB(sh) ==
+  IF sh.via # "exchange" THEN {}
+  ELSE {<<"out", Len(sh.outs)>>} \cup (IF Len(sh.ins) >= 2 THEN {<<"in", Len(sh.ins)>>} ELSE {})
+PartyA(sh) == {n \in BNames(sh) : n[1] \in {"in", "out"}} \ PartyB(sh)
+PartySum(sh, S) == [n \in BNames(sh) |-> IF n \in S THEN BuilderSum(sh)[n] ELSE 0]
+SignKey(sh, P) ==
+  IF P = "A" THEN BSub(PartySum(sh, PartyA(sh)), BUnit(sh, <<"o", 0>>))
+  ELSE BAdd(PartySum(sh, PartyB(sh)), BUnit(sh, <<"k", 0>>))
+\* Schnorr partial signatures are linear in (nonce, key): s_P = nonce_P + e * key_P with the common
+\* challenge e = H(nonce sum, key sum, msg)
+PartialSig(sh, P) == [r |-> {P}, x |-> SignKey(sh, P)]
+AddSigs(s1, s2) == [r |-> s1.r \cup s2.r, x |-> BAdd(s1.x, s2.x)]
+SubSig(s, s1) == [r |-> s.r \ s1.r, x |-> BSub(s.x, s1.x)]
+AggSigOK(s, parties, key) == s.r = parties /\ s.x = key
+
 \* build::transaction / transaction_with_kernel: kernel excess e, offset = blind_sum.split(e)
 \* partial_transaction: caller signs with the whole blind sum, offset zero
-KernelExcess(sh) == IF sh.via = "partial" THEN BuilderSum(sh) ELSE BUnit(sh, <<"e", 0>>)
-Offset(sh) == IF sh.via = "partial" THEN [n \in BNames(sh) |-> 0] ELSE BSub(BuilderSum(sh), BUnit(sh, <<"e", 0>>))
+KernelExcess(sh) ==
+  CASE sh.via = "partial"  -> BuilderSum(sh)
+    [] sh.via = "exchange" -> BAdd(SignKey(sh, "A"), SignKey(sh, "B"))
+    [] OTHER               -> BUnit(sh, <<"e", 0>>)
+Offset(sh) ==
+  CASE sh.via = "partial"  -> BZero(sh)
+    [] sh.via = "exchange" -> BSub(BUnit(sh, <<"o", 0>>), BUnit(sh, <<"k", 0>>))
+    [] OTHER               -> BSub(BuilderSum(sh), BUnit(sh, <<"e", 0>>))
 \* Transaction::validate: sum(outputs) - sum(inputs) + fee*H = kernel excess + offset*G
 \* value part: units balance and the fee sits on the first input; blinding part:
 \* reward::output(keychain, builder, key_id, fees): one coinbase output of value reward(fees) under
@@ -325,6 +477,80 @@ BuilderBalances ==
     /\ BAdd(KernelExcess(shape), Offset(shape)) = BuilderSum(shape)
     /\ \E n \in BNames(shape) : KernelExcess(shape)[n] # 0       \* the kernel key is never the zero key
 
+ExchangeOK ==
+  (shape # <<>> /\ ~IsCb(shape) /\ shape.via = "exchange") =>
+    LET sA == PartialSig(shape, "A")
+        sB == PartialSig(shape, "B")
+        all == AddSigs(sA, sB) IN
+    /\ PartyA(shape) # {} /\ PartyB(shape) # {} /\ PartyA(shape) \cap PartyB(shape) = {}
+    /\ <<"in", 1>> \in PartyA(shape)
+    /\ BAdd(PartySum(shape, PartyA(shape)), PartySum(shape, PartyB(shape))) = BuilderSum(shape)
+    /\ \A P \in {"A", "B"} : \E n \in BNames(shape) : SignKey(shape, P)[n] # 0
+    \* the aggregate is a signature of both nonces under the kernel excess; a partial signature is
+    \* one under its own key only; subtracting one partial signature leaves the other
+    /\ AggSigOK(all, {"A", "B"}, KernelExcess(shape))
+    /\ AggSigOK(sA, {"A"}, SignKey(shape, "A")) /\ ~AggSigOK(sA, {"A"}, SignKey(shape, "B"))
+    /\ ~AggSigOK(sA, {"A", "B"}, KernelExcess(shape))
+    /\ SubSig(all, sA) = sB /\ SubSig(all, sB) = sA
+
+-----------------------------------------------------------------------------
+(* ---------------- wallet constructors ------------------------------------ *)
+(* "any seed / any other seed": the ways a keychain is made.  Seed bytes are   *)
+(* sequences of 16-byte blocks (16, 32 or 64 bytes), so that seeds sharing a   *)
+(* prefix exist; a mnemonic wallet is made from a word list and a passphrase   *)
+(* (ExtKeychain::from_mnemonic), or from the 64 bytes mnemonic::to_seed yields *)
+(* (from_seed); mask_master_key XORs a mask into the master secret.            *)
+
+WBlocks == {"p", "q"}
+WSeedBytes == UNION {[1..n -> WBlocks] : n \in {1, 2, 4}}
+WWords == {"w1", "w2"}
+WPass == {"", "x", "y"}                  \* "" = no passphrase
+WMasks == {"m1", "m2"}
+WMaskBase == <<"p", "q">>
+Ctors == [k : {"seed"}, b : WSeedBytes]
+           \cup [k : {"mnemonic", "mnemonic_seed"}, w : WWords, p : WPass]
+           \cup [k : {"masked"}, b : {WMaskBase}, m : UNION {[1..n -> WMasks] : n \in 1..2}]
+
+\* transcription
+ToSeed(w, p) == <<"pbkdf2", w, <<"mnemonic", p>>>>          \* mnemonic::to_seed: salt = "mnemonic" ++ passphrase
+NewMaster(bytes) == <<"hmac-sha512", bytes>>                \* ExtendedPrivKey::new_master over the WHOLE seed
+SymDiff(S, x) == IF x \in S THEN S \ {x} ELSE S \cup {x}
+RECURSIVE XorSet(_)
+XorSet(ms) == IF ms = <<>> THEN {} ELSE SymDiff(XorSet(Tail(ms)), Head(ms))
+Master(c) ==
+  CASE c.k = "seed"          -> NewMaster(<<"raw", c.b>>)                 \* ExtKeychain::from_seed(bytes)
+    [] c.k = "mnemonic"      -> NewMaster(ToSeed(c.w, c.p))              \* ExtKeychain::from_mnemonic(w, p)
+    [] c.k = "mnemonic_seed" -> NewMaster(ToSeed(c.w, c.p))              \* from_seed(&to_seed(w, p))
+    [] c.k = "masked"        -> LET S == XorSet(c.m) base == NewMaster(<<"raw", c.b>>) IN  \* mask_master_key, once per mask
+                                IF S = {} THEN base ELSE <<"xor", base, S>>
+
+\* definitional: which constructors denote the same wallet
+IsMn(c) == c.k \in {"mnemonic", "mnemonic_seed"}
+Occurs(ms, x) == Cardinality({i \in DOMAIN ms : ms[i] = x})
+OddMasks(c) == IF c.k = "masked" THEN {x \in WMasks : Occurs(c.m, x) % 2 = 1} ELSE {}
+IsRaw(c) == c.k \in {"seed", "masked"}
+SameWallet(c1, c2) ==
+  \/ (IsMn(c1) /\ IsMn(c2) /\ c1.w = c2.w /\ c1.p = c2.p)
+  \/ (IsRaw(c1) /\ IsRaw(c2) /\ c1.b = c2.b /\ OddMasks(c1) = OddMasks(c2))
+
+WalletArgs(c, path, amt, mode, fam) == [seed |-> Master(c), path |-> path, amt |-> amt, mode |-> mode, fam |-> fam, fmt |-> fam]
+\* two wallets: the same wallet iff the same constructor arguments; the same wallet derives the
+\* same keys / commitments and rewinds the other's outputs exactly, a different one recovers nothing
+WalletsOK ==
+  (Part = "wallet" /\ world # <<>>) =>
+    LET c1 == world.c1
+        c2 == world.c2
+        same == SameWallet(c1, c2) IN
+    /\ (Master(c1) = Master(c2)) <=> same
+    /\ \A path \in {<<>>, <<ZeroComp>>} : \A amt \in Amts : \A mode \in Modes : \A fam \in Fams :
+         LET a1 == WalletArgs(c1, path, amt, mode, fam)
+             o1 == MkOut(a1)
+             o2 == MkOut(WalletArgs(c2, path, amt, mode, fam))
+             r == Rewind([kind |-> fam, seed |-> Master(c2), prefix |-> <<>>], o1.commit, o1.proof) IN
+         /\ (o1.commit = o2.commit) <=> same
+         /\ Verifies(o2.commit, o1.proof) <=> same
+         /\ r = IF same /\ InDomain(a1) THEN Triple(a1) ELSE NoneR
+
 -----------------------------------------------------------------------------
 Init == world = <<>> /\ outs = {} /\ expr = <<>> /\ shape = <<>>
 
@@ -351,6 +577,11 @@ ChooseShape(sh) ==
   /\ shape' = sh
   /\ UNCHANGED <<world, outs, expr>>
 
+OpenPair(c1, c2) ==
+  /\ Part = "wallet" /\ world = <<>>
+  /\ world' = [c1 |-> c1, c2 |-> c2]
+  /\ UNCHANGED <<outs, expr, shape>>
+
 OpenAny == Part = "rewind" /\ world = <<>> /\ \E w \in Worlds : OpenWorld(w)
 CreateFirst ==
   Part = "rewind" /\ world # <<>> /\ outs = {} /\
@@ -360,13 +591,14 @@ CreateMore ==
   Part = "rewind" /\ world # <<>> /\ outs # {} /\ Cardinality(outs) < MaxOuts /\ \E a \in Args : Create(a)
 AppendAny == Part = "algebra" /\ Len(expr) < MaxTerms /\ \E t \in Terms : AppendTerm(t)
 ShapeAny == Part = "builder" /\ shape = <<>> /\ \E sh \in Shapes \cup CbShapes : ChooseShape(sh)
+PairAny == Part = "wallet" /\ world = <<>> /\ \E c1, c2 \in Ctors : OpenPair(c1, c2)
 
-Next == OpenAny \/ CreateFirst \/ CreateMore \/ AppendAny \/ ShapeAny
+Next == OpenAny \/ CreateFirst \/ CreateMore \/ AppendAny \/ ShapeAny \/ PairAny
 
 Spec == Init /\ [][Next]_vars
 
 TypeOK ==
-  /\ world = <<>> \/ world \in Worlds
+  /\ world = <<>> \/ (Part # "wallet" /\ world \in Worlds) \/ (Part = "wallet" /\ world \in [c1 : Ctors, c2 : Ctors])
   /\ \A o \in outs : o.args \in Args
   /\ expr \in Seq(Terms)
   /\ \/ shape = <<>>
